@@ -1,0 +1,53 @@
+//go:build verif
+
+package evm
+
+import (
+	"github.com/ethereum/go-ethereum/common"
+	"github.com/ethereum/go-ethereum/rlp"
+	"github.com/ethereum/go-ethereum/trie"
+	"github.com/rigochain/rigo-go/types"
+	"github.com/rigochain/rigo-go/types/xerrors"
+)
+
+// VerifContract is the EVM-side view of one address at a committed height.
+type VerifContract struct {
+	Addr    types.Address
+	Exist   bool
+	Code    []byte
+	Storage map[common.Hash]common.Hash
+}
+
+// VerifContractsAt returns code and storage of the given addresses at `height` (read-only; verification harness).
+func (ctrler *EVMCtrler) VerifContractsAt(height int64, addrs []types.Address) ([]*VerifContract, xerrors.XError) {
+	ctrler.mtx.RLock()
+	defer ctrler.mtx.RUnlock()
+
+	st, xerr := ctrler.ImmutableStateAt(height)
+	if xerr != nil {
+		return nil, xerr
+	}
+	var ret []*VerifContract
+	for _, a := range addrs {
+		ea := a.Array20()
+		c := &VerifContract{Addr: a, Storage: map[common.Hash]common.Hash{}}
+		c.Exist = st.StateDB.Exist(ea)
+		c.Code = st.StateDB.GetCode(ea)
+		// keyed by the hashed slot (preimages are not recorded by the trie database)
+		if tr := st.StateDB.StorageTrie(ea); tr != nil {
+			it := trie.NewIterator(tr.NodeIterator(nil))
+			for it.Next() {
+				_, content, _, err := rlp.Split(it.Value)
+				if err != nil {
+					return nil, xerrors.From(err)
+				}
+				c.Storage[common.BytesToHash(it.Key)] = common.BytesToHash(content)
+			}
+			if it.Err != nil {
+				return nil, xerrors.From(it.Err)
+			}
+		}
+		ret = append(ret, c)
+	}
+	return ret, nil
+}
